@@ -1,9 +1,11 @@
 package mon
 
 import (
+
 	"bytes"
 	"encoding/json"
 	"fmt"
+	"github.com/goark/go-cvss/v3/report"
 	"math/rand/v2"
 	"os"
 	"os/exec"
@@ -52,6 +54,7 @@ type c16event struct {
 
 // c16op is one seed-determined operation.
 type c16op struct {
+	u    int // unique number of the operation within the child process
 	kind int
 	obj  int // index of the shared object / shared report
 	p    int
@@ -59,6 +62,7 @@ type c16op struct {
 }
 
 type c16shared struct {
+	opts    []report.ReportOptionsFunc // one backing array with spare capacity, sub-sliced by all goroutines
 	objs    []lib.Obj
 	srcs    []objSource
 	reports []lib.Report // shared reports (v3 objects only)
@@ -78,12 +82,14 @@ var c16templates = []string{
 	"{{define \"row\"}}{{.}},{{end}}{{define \"footer\"}}# csv{{end}}{{template \"row\" .AVValue}}{{template \"row\" .Vector}}{{template \"footer\"}}",
 	"{{template \"row\" .SeverityValue}}",
 	"{{block \"row\" .Vector}}<{{.}}>{{end}} {{.SeverityValue}}",
+	// decomposed characters (not NFC-normal) in the literal text and right after an action
+	"か\u3099 e\u0301 {{.SeverityValue}}\u0301 \u212b {{.Vector}}",
 }
 
 func buildShared(seed int64) *c16shared {
 	rng := rand.New(rand.NewPCG(uint64(seed)*31+7, 0xC16))
 
-	sh := &c16shared{tmpls: c16templates}
+	sh := &c16shared{tmpls: c16templates, opts: lib.SharedOptions()}
 	// 3 shared objects per decoder kind: two decoded, one invalid (fresh constructor)
 	for k := lib.Kind(0); k < lib.NKinds; k++ {
 		for j := 0; j < 3; j++ {
@@ -118,7 +124,7 @@ func buildShared(seed int64) *c16shared {
 func c16genOp(rng *rand.Rand, sh *c16shared) c16op {
 	switch x := rng.IntN(100); {
 	case x < 62: // query on a shared object
-		return c16op{kind: rng.IntN(kReportNew + 1), obj: rng.IntN(len(sh.objs)), p: rng.IntN(9)}
+		return c16op{kind: rng.IntN(kReportNew + 1), obj: rng.IntN(len(sh.objs)), p: rng.IntN(len(reportLangs))}
 	case x < 74:
 		return c16op{kind: kExportShared, obj: rng.IntN(len(sh.reports)), p: rng.IntN(3 * len(sh.tmpls))}
 	case x < 86:
@@ -136,9 +142,19 @@ func c16exec(op *c16op, sh *c16shared) string {
 	case kScore, kSeverity, kGetError, kEncode, kString, kBaseMetrics, kTemporalMetrics, kIsEmpty:
 		return doOp(sh.objs[op.obj], op.kind, op.p)
 	case kReportNew:
-		return doOp(sh.objs[op.obj], 8, op.p)
+		o := sh.objs[op.obj]
+		if op.p%3 == 0 && !o.Kind.V2() && !o.IsNil() {
+			// options passed as a sub-slice (len 1, spare capacity) of an array shared by all goroutines
+			rep, pan := lib.NewReportOpts(o, sh.opts, op.p)
+			if pan != nil {
+				return "report panicked: " + pan.Value
+			}
+			got, _ := rep.Flatten()
+			return fmt.Sprint(lib.SharedOptLang(op.p), got["SeverityName"], got["Vector"], got["AVName"], got["BaseReport.AVName"], got["TemporalReport.BaseReport.AVName"], got["SeverityValue"])
+		}
+		return doOp(o, 8, op.p)
 	case kExportShared:
-		return c16export(sh.reports[op.obj], sh, op.p)
+		return c16export(sh.reports[op.obj], sh, op.p, op.u)
 	case kDecodeOwn:
 		o := op.src.make()
 		_, err, pan := lib.Decode(op.src.Kind, op.src.Input, op.p%2 == 0)
@@ -152,7 +168,7 @@ func c16exec(op *c16op, sh *c16shared) string {
 		if pan != nil {
 			return "report panicked"
 		}
-		return c16export(rep, sh, op.p)
+		return c16export(rep, sh, op.p, op.u)
 	default:
 		i := op.p % len(lib.ValueFns)
 		j := op.p / 64 % len(lib.TitleFns)
@@ -162,8 +178,14 @@ func c16exec(op *c16op, sh *c16shared) string {
 }
 
 // c16export exports template p%len through the string path, a reader, or a reader that fails half-way.
-func c16export(rep lib.Report, sh *c16shared, p int) string {
+func c16export(rep lib.Report, sh *c16shared, p int, u int) string {
 	t := sh.tmpls[p%len(sh.tmpls)]
+	if u%5 == 0 && p%len(sh.tmpls) < 3 {
+		// a template text never seen before: distinct texts accumulate in the process.  u is assigned per
+		// operation when the lists are generated - the goroutines share no counter (an atomic would add
+		// happens-before edges between them and could hide races).
+		t += fmt.Sprintf("{{/* %d */}}", u)
+	}
 	switch p / len(sh.tmpls) {
 	case 0:
 		out, isNil, err, pan := rep.ExportWithString(t)
@@ -244,6 +266,7 @@ func c16child(args []string, _ int64, _ string) int {
 			lists[g] = make([]c16op, n)
 			for i := range lists[g] {
 				lists[g][i] = c16genOp(rng, sh)
+				lists[g][i].u = phase*10000000 + g*100000 + i
 			}
 		}
 		results := make([][]uint64, G)
